@@ -295,6 +295,13 @@ def run_case(case: dict) -> Result:
                 if not any(isinstance(x, BlockComment) for x in w):
                     continue
                 before = omap(root)
+                none = w.unclaim_interleaving_comments([])   # an empty selection names no comment
+                if len(none) or omap(root) != before:
+                    return _done(res.bad(f'unclaim-empty-selection:{type(m).__name__}.{p.name}', f'unclaim_interleaving_comments([]) on {type(m).__name__}.{p.name} released '
+                                         f'{len(none)} comment(s) / changed the attribution ({_mdiff(before, omap(root))}) in {text!r}'), classes)
+                w.claim_interleaving_comments([])
+                if omap(root) != before:
+                    return _done(res.bad(f'claim-empty-selection:{type(m).__name__}.{p.name}', f'claim_interleaving_comments([]) changed the attribution in {text!r}'), classes)
                 un = w.unclaim_interleaving_comments()
                 bad = check_unique(root, False, 'after unclaim_interleaving_comments')
                 if bad:
